@@ -31,6 +31,8 @@ pub fn rich_schema() -> Schema {
     sb.add_bool_field("flagi", INDEXED);
     sb.add_date_field("dt", INDEXED | FAST);
     sb.add_ip_addr_field("ip", INDEXED | FAST);
+    sb.add_i64_field("pop", INDEXED | FAST);
+    sb.add_text_field("cat", STRING | FAST);
     sb.build()
 }
 
@@ -87,6 +89,14 @@ pub fn to_doc(schema: &Schema, d: &Value) -> TantivyDocument {
     for v in ints(d, "ip") {
         doc.add_ip_addr(f("ip"), ip_of(v));
     }
+    for v in ints(d, "pop") {
+        doc.add_i64(f("pop"), v);
+    }
+    if let Some(t) = d.get("cat").and_then(|x| x.as_array()) {
+        for w in t {
+            doc.add_text(f("cat"), word(w));
+        }
+    }
     doc
 }
 
@@ -141,6 +151,9 @@ pub fn gen_corpus(rng: &mut StdRng, n: usize, dense_all: bool) -> Vec<Value> {
         m.insert("flag".into(), if rng.random_bool(0.7) { json!([rng.random_range(0..2)]) } else { json!([]) });
         m.insert("dt".into(), if rng.random_bool(0.5) { json!([rng.random_range(0..15)]) } else { json!([]) });
         m.insert("ip".into(), if rng.random_bool(0.5) { json!([rng.random_range(0..15)]) } else { json!([]) });
+        // few distinct values: massive ties for the sort keys of C06
+        m.insert("pop".into(), if rng.random_bool(0.8) { json!([rng.random_range(-2..4)]) } else { json!([]) });
+        m.insert("cat".into(), if rng.random_bool(0.8) { json!([gen_word(rng)]) } else { json!([]) });
         docs.push(d);
     }
     docs
@@ -335,6 +348,102 @@ pub fn leaves(q: &Value) -> usize {
     }
 }
 
+/// some leaf of the query is answered by a BitSetDocSet (recorded finding: advance() after a seek
+/// past the last document resumes the iteration)
+pub fn has_bitset_leaf(schema: &Schema, q: &Value) -> bool {
+    match q["k"].as_str().unwrap_or("") {
+        "set" | "fuzzy" | "regex" => true,
+        "range" => {
+            let f = schema.get_field(q["f"].as_str().unwrap_or("")).ok();
+            f.map(|f| !schema.get_field_entry(f).field_type().is_fast()).unwrap_or(false)
+        }
+        "bool" => q["cl"].as_array().unwrap().iter().any(|c| has_bitset_leaf(schema, &c["q"])),
+        "dismax" => q["qs"].as_array().unwrap().iter().any(|x| has_bitset_leaf(schema, x)),
+        "boost" | "const" => has_bitset_leaf(schema, &q["q"]),
+        _ => false,
+    }
+}
+
+/// the scorer may contain a BufferedUnionScorer (recorded finding: fill_buffer leaves score() stale
+/// and does not clear the per-document score combiners)
+pub fn has_union(q: &Value) -> bool {
+    match q["k"].as_str().unwrap_or("") {
+        "bool" | "dismax" => true,
+        "boost" | "const" => has_union(&q["q"]),
+        _ => false,
+    }
+}
+
+/// the top-level scorer (through boost wrappers / single-clause shortcuts) may be an Intersection
+/// (recorded finding: its dense count_including_deleted leaves doc() on a stale document)
+pub fn may_be_intersection(q: &Value) -> bool {
+    match q["k"].as_str().unwrap_or("") {
+        "bool" => {
+            let cl = q["cl"].as_array().unwrap();
+            let n_must = cl.iter().filter(|c| c["o"] == "must").count();
+            n_must >= 1 || q["msm"].as_u64().unwrap_or(0) >= 2 || (cl.len() == 1 && may_be_intersection(&cl[0]["q"]))
+        }
+        "boost" => may_be_intersection(&q["q"]),
+        _ => false,
+    }
+}
+
+/// top-level (through boost) DisjunctionMaxQuery whose disjuncts are all term queries reading
+/// frequencies, at least two of them (recorded finding: TopDocs scores it as a sum via block-WAND)
+pub fn is_toplevel_term_dismax(q: &Value) -> bool {
+    match q["k"].as_str().unwrap_or("") {
+        "dismax" => {
+            let qs = q["qs"].as_array().unwrap();
+            qs.len() >= 2 && qs.iter().all(|x| x["k"] == "term" && x["opt"] != "basic")
+        }
+        "boost" => is_toplevel_term_dismax(&q["q"]),
+        _ => false,
+    }
+}
+
+fn has_phrase(q: &Value) -> bool {
+    match q["k"].as_str().unwrap_or("") {
+        "phrase" | "pprefix" | "rphrase" => true,
+        "bool" => q["cl"].as_array().unwrap().iter().any(|c| has_phrase(&c["q"])),
+        "dismax" => q["qs"].as_array().unwrap().iter().any(has_phrase),
+        "boost" | "const" => has_phrase(&q["q"]),
+        _ => false,
+    }
+}
+
+/// Recorded finding: PhraseScorer::seek_danger debug-asserts `target >= doc()`, but Exclude::contains
+/// and BufferedUnionScorer::seek_danger probe their members with smaller targets.  A phrase-like
+/// leaf is in a safe position only if every ancestor is a boost/const wrapper, a bool in which it is
+/// a Must clause, or a bool with a Must clause and no required Should in which it is an optional Should.
+pub fn has_phrase_under_mustnot(q: &Value) -> bool {
+    phrase_unsafe(q, true)
+}
+
+fn phrase_unsafe(q: &Value, safe_here: bool) -> bool {
+    match q["k"].as_str().unwrap_or("") {
+        "phrase" | "pprefix" | "rphrase" => !safe_here,
+        "boost" | "const" => phrase_unsafe(&q["q"], safe_here),
+        "dismax" => {
+            let qs = q["qs"].as_array().unwrap();
+            qs.iter().any(|x| phrase_unsafe(x, safe_here && qs.len() == 1))
+        }
+        "bool" => {
+            let cl = q["cl"].as_array().unwrap();
+            let n_must = cl.iter().filter(|c| c["o"] == "must").count();
+            let msm = q["msm"].as_u64().unwrap_or(0);
+            cl.iter().any(|c| {
+                let ok = match c["o"].as_str().unwrap() {
+                    "must" => true,
+                    "should" => (n_must >= 1 && msm == 0) || cl.len() == 1,
+                    _ => false,
+                };
+                phrase_unsafe(&c["q"], safe_here && ok)
+            })
+        }
+        _ => false,
+    }
+}
+
 pub struct GenOpts {
     pub depth: u32,
     pub leaf_kinds: Vec<&'static str>,
@@ -397,7 +506,9 @@ pub fn gen_leaf(rng: &mut StdRng, o: &GenOpts) -> Value {
             let n = rng.random_range(2..4);
             let ts: Vec<String> = (0..n).map(|_| if rng.random_bool(0.15) { "all".to_string() } else { tok(rng) }).collect();
             // slop > 0 only for two terms (DESIGN: the documented budget semantics is forced there)
-            let slop = if n == 2 && rng.random_bool(0.4) { rng.random_range(1..3) } else { 0 };
+            // ... and only for two *distinct* terms: "x x"~1 matches a document with a single x (the position of
+            // the first term is within one move of where the second is expected); the documentation does not decide this
+            let slop = if n == 2 && ts[0] != ts[1] && rng.random_bool(0.4) { rng.random_range(1..3) } else { 0 };
             json!({"k":"phrase","f":"title","ts":ts,"slop":slop})
         }
         "pprefix" => {
@@ -448,8 +559,11 @@ pub fn gen_leaf(rng: &mut StdRng, o: &GenOpts) -> Value {
         "fuzzy" => {
             let tr = rng.random_bool(0.5);
             // distance 2 only without transposition cost one (restricted vs. full Damerau differ there)
-            let d = if tr { rng.random_range(0..2) } else { rng.random_range(0..3) };
-            json!({"k":"fuzzy","f":"tag","t":gen_word(rng),"d":d,"tr":tr,"prefix":rng.random_bool(0.3)})
+            let prefix = rng.random_bool(0.3);
+            // prefix mode only up to distance 1 (recorded finding: with distance 2 the prefix automaton of
+            // levenshtein_automata is not closed under extension: "b" matches the term "aab", "bc" does not)
+            let d = if tr || prefix { rng.random_range(0..2) } else { rng.random_range(0..3) };
+            json!({"k":"fuzzy","f":"tag","t":gen_word(rng),"d":d,"tr":tr,"prefix":prefix})
         }
         "regex" => json!({"k":"regex","f":"tag","re":gen_regex(rng, 2)}),
         x => panic!("leaf kind {x}"),
